@@ -48,18 +48,27 @@ theorem c05_optimize_well_typed_partial (cat : Catalog) (q : Q) (hw : wellTyped 
     (hsafe : OptSafe cat q = true) : wellTyped cat (optimize q) = true :=
   (optimize_sound cat q hw hsafe).1
 
-/-- **Composed with C01/C02** (`c04_end_to_end`): over the index *models* after arbitrary histories of
-every index, the optimised tree succeeds where the unoptimised does and returns the same members.
-Partial for the same reason as above (`wellTyped`, `OptSafe`, evaluated on the specification tables of the
-histories). -/
-theorem c05_end_to_end_partial (hs : List IndexH) (q : Q)
+/-- **Composed with C01/C02/C13/C03** (`c04_end_to_end`): over the index *models* of all four kinds after
+arbitrary histories of every index, the optimised tree succeeds where the unoptimised does and returns the
+same members.  Partial for the same reason as above (`wellTyped`, `OptSafe`, evaluated on the specification
+tables of the histories); `HistsOK` / `leavesListed` are C03's hypotheses for the text indexes of the
+catalog (see `c04_end_to_end`) – the optimiser keeps a tree's text leaves inside the dictionary
+(`c05_optimize_keeps_text_leaves`). -/
+theorem c05_end_to_end_partial (hs : List IndexH) (q : Q) (hok : HistsOK hs) (hq : leavesListed hs q = true)
     (hw : wellTyped (specCatalog hs) q = true) (hsafe : OptSafe (specCatalog hs) q = true) :
     ∃ r r', applyQM (modelCatalog hs) q = .ok r ∧ applyQM (modelCatalog hs) (optimize q) = .ok r' ∧
       ∀ d, d ∈ r' ↔ d ∈ r := by
   obtain ⟨hwo, hv⟩ := optimize_sound _ q hw hsafe
-  obtain ⟨r, hr, he⟩ := (ResEq.ok_iff (ResEq.symm (applyQM_refines hs q))).1 _ (applyQ_val hw)
-  obtain ⟨r', hr', he'⟩ := (ResEq.ok_iff (ResEq.symm (applyQM_refines hs (optimize q)))).1 _ (applyQ_val hwo)
+  obtain ⟨r, hr, he⟩ := (ResEq.ok_iff (ResEq.symm (applyQM_refines hs hok q hq))).1 _ (applyQ_val hw)
+  obtain ⟨r', hr', he'⟩ := (ResEq.ok_iff (ResEq.symm (applyQM_refines hs hok (optimize q)
+    (leavesListed_optimize hs q hq)))).1 _ (applyQ_val hwo)
   exact ⟨r, r', hr, hr', fun d => by rw [← he' d, hv d, he d]⟩
+
+/-- `_optimize` (negation, folds, pairing loops, re-construction) never moves a text leaf outside the
+dictionary of query strings: every `Contains/NotContains/Eq/NotEq` leaf of the optimised tree on a text index
+carries a value of the original tree -/
+theorem c05_optimize_keeps_text_leaves (hs : List IndexH) (q : Q) (hq : leavesListed hs q = true) :
+    leavesListed hs (optimize q) = true := leavesListed_optimize hs q hq
 
 /-- the pairing loops (any arity): with `P` a predicate that the range node built from a matched pair
 turns into the conjunction of the pair, "all operands satisfy `P`" is unchanged by the loop -/
